@@ -15,6 +15,7 @@ import os
 import re
 
 from vlib import read_jsonl, zlit, canon_hash
+from chunk_eval import coq_eval_chunks
 
 SET, GET, DEL, RESET, LEN, ALEN = 0, 1, 2, 3, 4, 5
 OPN = ["Set", "Get", "Delete", "Reset", "Len", "ActiveLen"]
@@ -280,23 +281,19 @@ def run(ctx):
         ctx.tie_broken("C48/Model.v does not compile", mout)
     elif outs:
         good = [(c, o) for c, o in zip(cases, outs) if o.get("steps")]
-        rc2, o2 = ctx.coq_eval("cases_C48", COQ_TMPL % coq_cases([c for c, _ in good], [o for _, o in good]))
-        flat = " ".join(o2.split())
-        m_ = re.search(r"= \((\d+)%nat, (\d+)%nat, (\[.*?\])\)", flat)
-        if rc2 != 0 or not m_:
+        okc, _, mism, first, o2 = coq_eval_chunks(ctx, "cases_C48", good, lambda ch: COQ_TMPL % coq_cases([c for c, _ in ch], [o for _, o in ch]))
+        if not okc:
+            mism = None
             ctx.tie_broken("model-vs-implementation (cases.v did not evaluate)", o2)
-        else:
-            mism = int(m_.group(2))
-            if mism and n_viol == 0:
-                first = re.findall(r"\((\d+)%nat, (\d+)%nat\)", m_.group(3))
-                det = []
-                for cid, idx in first[:3]:
-                    c = cases[int(cid)]
-                    det.append({"ttl": c["ttl"], "ops": [[OPN[x[0]]] + x[1:] for x in c["ops"][:int(idx) + 1]], "first_diverging_operation": int(idx),
-                                "implementation": outs[int(cid)]["steps"][int(idx)]})
-                ctx.tie_broken("TTLMap state/result after every operation vs C48/Model.v", {"mismatching_histories": mism, "first": det})
-            elif mism:
-                ctx.notes.append("model and implementation also disagree on %d histories (the oracle already reported a concrete failing history)" % mism)
+        elif mism and n_viol == 0:
+            det = []
+            for cid, idx in first[:3]:
+                c = cases[cid]
+                det.append({"ttl": c["ttl"], "ops": [[OPN[x[0]]] + x[1:] for x in c["ops"][:idx + 1]], "first_diverging_operation": idx,
+                            "implementation": outs[cid]["steps"][idx]})
+            ctx.tie_broken("TTLMap state/result after every operation vs C48/Model.v", {"mismatching_histories": mism, "first": det})
+        elif mism:
+            ctx.notes.append("model and implementation also disagree on %d histories (the oracle already reported a concrete failing history)" % mism)
 
     # ---- theorems
     if not ctx.coq_property():
@@ -332,7 +329,7 @@ def run(ctx):
 
 
 THEOREMS = ["C48_get_agrees_with_history", "C48_get_agrees_with_spec_map", "C48_simulation_preserved", "C48_evict_never_loses_live",
-            "C48_compact_preserves_content", "C48_fast_path_no_holes", "C48_active_len_counts_live", "C48_backward_clock_revives"]
+            "C48_compact_preserves_content", "C48_fast_path_no_holes", "C48_slow_path_in_place", "C48_active_len_counts_live", "C48_backward_clock_revives"]
 
 META = {
     "ready": True,
@@ -340,5 +337,5 @@ META = {
     "technique": "Rocq refinement proof (slice+index map vs finite map with expiry) + differential execution of the Coq model against the real TTLMap with a scripted clock",
     "text": "The items/order/head structure with Set/Get/Delete/Reset/ActiveLen/evict/maybeCompact is modelled as written; a simulation relation to a finite map key -> (value, expireAt) is proved to be preserved by every operation for every history with a non-decreasing clock, hence every Get returns exactly the last Set value younger than the TTL with no later Delete/Reset; eviction only removes expired mappings and compaction (both paths) preserves the content.",
     "design_ref": "DESIGN.md 7/C48",
-    "level_note": "Trusted: Coq kernel, hand-written model tied by per-operation state comparison, the scripted clock substitution. In-place slice aliasing of the slow compaction path and int64 overflow of now+ttl are outside the model.",
+    "level_note": "Trusted: Coq kernel, hand-written model tied by per-operation state comparison, the scripted clock substitution. int64 overflow of now+ttl is outside the model (times are unbounded Z).",
 }
